@@ -198,6 +198,19 @@ theorem equalities_survive_merge {s s' : Snap} {cf ct ct' : SClass} {N : SlotMap
     Snap.eq s' a b = some true :=
   Snap.eq_survives_merge hok hclsf hvf holdf holdt hne hN huf hcls' hid hslots hvt' hgens ha hb hA hB h
 
+/-- the other half of "once equal, equal after a merge": two invocations of the SURVIVING class keep comparing equal — its
+canonical forms are untouched by the write (`set_unchanged`) and its group only grows (`gen_mono`) -/
+theorem equalities_of_survivor_survive_merge {s s' : Snap} {ct ct' : SClass} {i : Nat} {old e : AppId}
+    (hclst : Snap.cls s ct.id = some ct) (hvt : Grp.Valid ct.slots ct.gens)
+    (hold : s.uf[i]? = some old) (hlead : old.id = i) (hne : ct.id ≠ i)
+    (huf : s'.uf = s.uf.set i e)
+    (hcls' : Snap.cls s' ct.id = some ct') (hid : ct'.id = ct.id) (hslots : ct'.slots = ct.slots)
+    (hvt' : Grp.Valid ct'.slots ct'.gens) (hgens : ∀ g ∈ ct.gens, Grp.Gen ct'.slots ct'.gens g)
+    {a b : AppId} {A B : SlotMap} (ha : Snap.find s a = some ⟨ct.id, A⟩) (hb : Snap.find s b = some ⟨ct.id, B⟩)
+    (hA : Snap.IsEmb ct.slots A) (hB : Snap.IsEmb ct.slots B) (h : Snap.eq s a b = some true) :
+    Snap.eq s' a b = some true :=
+  Snap.eq_survives_merge_target hclst hvt hold hlead hne huf hcls' hid hslots hvt' hgens ha hb hA hB h
+
 /-- non-vacuity: two classes are allocated, class 1 (slots 0, 4) is merged into class 0 (slots 8, 12) with the arguments
 exchanged, then class 0 loses slot 12; all four writes pass the guards -/
 example : (Snap.applyWrites [] [(0, ⟨0, [(8, 8), (12, 12)]⟩), (1, ⟨1, [(0, 0), (4, 4)]⟩),
